@@ -111,15 +111,13 @@ Qed.
 
 (* ---------- well-formed boundary states ------------------------------------------------------- *)
 (* between calls: READY / IN_TXN / ABORTABLE_ERROR / FATAL_ERROR; ABORTABLE carries its error and
-   (a topic / group authorization failure) and error_transaction has cleared the partitions and
-   the group *)
+   (a topic / group authorization failure) *)
 Definition no_werr (s : tstate) : bool := match werr s with None => true | Some _ => false end.
 Definition wfb (s : tstate) : bool :=
   match st s with
   | READY => no_werr s && is_empty_txn s
   | IN_TXN => no_werr s
   | ABORTABLE => (match werr s with Some (XCode E29) | Some (XCode E30) => true | _ => false end)
-                 && is_empty_txn s
   | FATAL => (match werr s with Some _ => true | None => false end) && is_empty_txn s
   | _ => false
   end.
@@ -550,4 +548,43 @@ Lemma fatal_raise s c f e :
 Proof.
   intros W R F. pose proof (wsweep_sound _ fatal_raise_sweep s c f W) as P.
   unfold fatal_raise_b in P. rewrite R, F in P. apply tst_eqb_true in P. exact P.
+Qed.
+
+(* abort after an abortable error ends the transaction at the coordinator whenever anything had
+   been registered there (partitions or the consumer group) *)
+Definition abort_sends_endtxn_b (s : tstate) (c : call) (f : fault) : bool :=
+  tst_eqb (st s) ABORTABLE ==>
+  reqs_eqb (api_req s Abort None) (if is_empty_txn s then [] else [REndTxn false])
+  && reqs_eqb (api_req s CtxExc None) (if is_empty_txn s then [] else [REndTxn false]).
+Lemma abort_sends_endtxn_sweep : wsweep abort_sends_endtxn_b = true.
+Proof. vm_compute. reflexivity. Qed.
+Lemma abort_sends_endtxn s :
+  wfb s = true -> st s = ABORTABLE ->
+  api_req s Abort None = (if is_empty_txn s then [] else [REndTxn false]) /\
+  api_req s CtxExc None = (if is_empty_txn s then [] else [REndTxn false]).
+Proof.
+  intros W A. pose proof (wsweep_sound _ abort_sends_endtxn_sweep s Begin None W) as P.
+  unfold abort_sends_endtxn_b in P. rewrite A, tst_eqb_eq in P.
+  apply andb_prop in P. destruct P as [P Q]. split; apply eqb_of_true in P; apply eqb_of_true in Q; auto.
+Qed.
+
+(* entering ABORTABLE_ERROR keeps the registered partitions and group *)
+Definition abortable_keeps_b (s : tstate) (c : call) (f : fault) : bool :=
+  (tst_eqb (st (api_st s c f)) ABORTABLE && negb (tst_eqb (st s) ABORTABLE)) ==>
+  (Bool.eqb (p0 (api_st s c f)) (p0 s) && Bool.eqb (p1 (api_st s c f)) (p1 s)
+   && implb (grp s) (grp (api_st s c f)) && is_error (api_res s c f)).
+Lemma abortable_keeps_sweep : wsweep abortable_keeps_b = true.
+Proof. vm_compute. reflexivity. Qed.
+Lemma abortable_keeps s c f :
+  wfb s = true -> st s <> ABORTABLE -> st (api_st s c f) = ABORTABLE ->
+  p0 (api_st s c f) = p0 s /\ p1 (api_st s c f) = p1 s /\ (grp s = true -> grp (api_st s c f) = true) /\
+  is_error (api_res s c f) = true.
+Proof.
+  intros W N A. pose proof (wsweep_sound _ abortable_keeps_sweep s c f W) as P.
+  unfold abortable_keeps_b in P. rewrite A, tst_eqb_eq, (tst_eqb_neq _ _ N) in P.
+  change (true && negb false) with true in P. cbv iota in P.
+  apply andb_prop in P. destruct P as [P R]. apply andb_prop in P. destruct P as [P G].
+  apply andb_prop in P. destruct P as [P0 P1].
+  split; [apply eqb_prop; exact P0|]. split; [apply eqb_prop; exact P1|]. split; [|exact R].
+  intros K. rewrite K in G. exact G.
 Qed.
